@@ -264,11 +264,15 @@ struct RadialProbe : Radial {
 
 struct UniformProbe : UniformDispersalKernel {
     UniformProbe(const UniformDispersalKernel& k) : UniformDispersalKernel(k) {}
-    std::string ranges() {
+    // the two member distributions, when the class still has them (a rewrite of the internals must not stop the
+    // harness from compiling: the behavioural lines kern.uniform.draw / .sweep / .real judge the landing law)
+    template <class K> static auto ranges_of(K& k, int) -> decltype(k.row_distribution.a(), k.col_distribution.b(), std::string()) {
         std::ostringstream o;
-        o << row_distribution.a() << " " << row_distribution.b() << " " << col_distribution.a() << " " << col_distribution.b();
+        o << k.row_distribution.a() << " " << k.row_distribution.b() << " " << k.col_distribution.a() << " " << k.col_distribution.b();
         return o.str();
     }
+    template <class K> static std::string ranges_of(K&, long) { return "na na na na"; }
+    std::string ranges() { return ranges_of(*this, 0); }
 };
 struct NeighborProbe : DeterministicNeighborDispersalKernel {
     NeighborProbe(const DeterministicNeighborDispersalKernel& k) : DeterministicNeighborDispersalKernel(k) {}
